@@ -10,14 +10,17 @@ EXTENDS Lsp, Json
 
 CONSTANTS Deviations, MaxHist
 Files == {"main", "inc", "cfg"}
-TextsOf == [main |-> {"ma", "mb", "mx"}, inc |-> {"ia", "ib", "ix", "ir"}, cfg |-> {"ca", "cb"}]          \* "ir" imports main: a cycle when main imports inc
-EntryOf(t) == IF t = "cb" THEN "gone" ELSE "main"          \* config text "cb" names an entry file that does not exist
+TextsOf == [main |-> {"ma", "mb", "mx"}, inc |-> {"ia", "ib", "ix", "ir"}, cfg |-> {"ca", "cb", "cc"}]          \* "ir" imports main: a cycle when main imports inc
+EntryOf(t) == IF t = "cb" THEN "gone" ELSE IF t = "cc" THEN "inc" ELSE "main"      \* "cb": an entry file that does not exist, "cc": inc is the entry
+E(fm) == EntryOf(fm["cfg"])                                 \* a file map holds the configuration text too, so it knows its entry
 ImportsInc(t) == t \in {"ma", "mx"}
 Broken(t) == t \in {"mx", "ix", "ir"}
 Cyclic(fm) == fm["main"] # NoText /\ ImportsInc(fm["main"]) /\ fm["inc"] = "ir"
-TreeOf(fm) == IF fm["main"] = NoText THEN {} ELSE {"main"} \cup (IF ImportsInc(fm["main"]) /\ fm["inc"] # NoText THEN {"inc"} ELSE {})
+TreeOf(fm) == IF E(fm) = "main" THEN (IF fm["main"] = NoText THEN {} ELSE {"main"} \cup (IF ImportsInc(fm["main"]) /\ fm["inc"] # NoText THEN {"inc"} ELSE {}))
+              ELSE IF E(fm) = "inc" THEN (IF fm["inc"] = NoText THEN {} ELSE {"inc"} \cup (IF fm["inc"] = "ir" /\ fm["main"] # NoText THEN {"main"} ELSE {}))
+              ELSE {}
 Seen(fm) == [f \in TreeOf(fm) |-> fm[f]]
-DiagOf(fm, g) == IF Broken(fm[g]) THEN g \o "/" \o fm["main"] \o (IF "inc" \in TreeOf(fm) THEN fm["inc"] ELSE "") ELSE "none"
+DiagOf(fm, g) == IF Broken(fm[g]) THEN g \o "/" \o fm["cfg"] \o fm["main"] \o (IF "inc" \in TreeOf(fm) THEN fm["inc"] ELSE "") ELSE "none"
 
 Kinds == {"completion", "definition", "highlight", "hover", "onType", "prepareRename", "references", "rename",
           "codeLens", "documentSymbol", "formatting", "semanticTokens", "workspaceSymbol"}
@@ -30,20 +33,21 @@ VARIABLES s, disk, hist
 vars == <<s, disk, hist>>
 
 Ok(b) == Resolvable(disk, b, "cfg", EntryOf)
+MainE(b) == EntryFile(disk, b, "cfg", EntryOf)
 TreeNow(b) == IF Ok(b) THEN TreeOf(Eff(disk, b)) ELSE {}
 Init == /\ disk \in [Files -> {"ma", "mb", NoText, "ia", "ix", "ca"}] /\ disk["main"] \in {"ma", "mb", NoText} /\ disk["inc"] \in {"ia", "ix"}
         /\ disk["cfg"] = "ca"
-        /\ s = S0(disk, disk["main"] # NoText, "main") /\ hist = <<>>
+        /\ s = S0(disk, disk["main"] # NoText, "main") /\ hist = <<>>          \* (the configuration on disk names main)
 
 Ev(k, f, t) == [k |-> k, f |-> f, t |-> t]
 NewS(b) == Eff(disk, b)
 DidOpen(f, t) == /\ s.alive /\ s.buf[f] = NoText
                  /\ LET b == [s.buf EXCEPT ![f] = t]
-                        fm == NewS(b) IN s' = Insert(s, disk, f, t, Ok(b), "main", TreeNow(b), LAMBDA g : DiagOf(fm, g), Deviations)
+                        fm == NewS(b) IN s' = Insert(s, disk, f, t, Ok(b), MainE(b), TreeNow(b), LAMBDA g : DiagOf(fm, g), Deviations)
                  /\ hist' = Append(hist, Ev("open", f, t)) /\ UNCHANGED disk
 DidChange(f, t) == /\ s.alive /\ s.buf[f] # NoText /\ s.buf[f] # t
                    /\ LET b == [s.buf EXCEPT ![f] = t]
-                          fm == NewS(b) IN s' = Insert(s, disk, f, t, Ok(b), "main", TreeNow(b), LAMBDA g : DiagOf(fm, g), Deviations)
+                          fm == NewS(b) IN s' = Insert(s, disk, f, t, Ok(b), MainE(b), TreeNow(b), LAMBDA g : DiagOf(fm, g), Deviations)
                    /\ hist' = Append(hist, Ev("change", f, t)) /\ UNCHANGED disk
 (* didChange with no entry / with two entries (the client's buffer is the last one) *)
 DidChange0(f) == /\ s.alive /\ s.buf[f] # NoText
@@ -54,7 +58,7 @@ DidChange2(f, t1, t2) == /\ s.alive /\ s.buf[f] # NoText /\ t1 # t2
                                 bc == [s.cli EXCEPT ![f] = t2]          \* what an ideal server would analyse
                                 b == [s.buf EXCEPT ![f] = ts]
                                 fm == NewS(b) IN
-                            s' = InsertC(s, disk, f, ts, t2, Ok(b), "main", TreeNow(b), LAMBDA g : DiagOf(fm, g), Deviations)
+                            s' = InsertC(s, disk, f, ts, t2, Ok(b), MainE(b), TreeNow(b), LAMBDA g : DiagOf(fm, g), Deviations)
                          /\ UNCHANGED <<disk, hist>>
 (* any message about a document that is not a file *)
 NonFile == /\ s.alive /\ s' = (IF NonFileKills(Deviations) THEN Die(s, "NonFileUriPanics") ELSE s) /\ UNCHANGED <<disk, hist>>
@@ -65,7 +69,7 @@ Unknown == /\ s.alive /\ s' = (IF UnknownUnanswered(Deviations) THEN Die(s, "Unk
 NonUtf8(kind) == /\ s.alive /\ s' = (IF NonUtf8KillsMsg(kind, s.has, Deviations) THEN Die(s, "NonUtf8PathPanics") ELSE s) /\ UNCHANGED <<disk, hist>>
 DidClose(f) == /\ s.alive /\ s.buf[f] # NoText
                /\ LET b == [s.buf EXCEPT ![f] = NoText]
-                      fm == NewS(b) IN s' = Close(s, disk, f, Ok(b), "main", TreeNow(b), LAMBDA g : DiagOf(fm, g), Deviations)
+                      fm == NewS(b) IN s' = Close(s, disk, f, Ok(b), MainE(b), TreeNow(b), LAMBDA g : DiagOf(fm, g), Deviations)
                /\ hist' = Append(hist, Ev("close", f, NoText)) /\ UNCHANGED disk
 (* a request: trips one of the string-index defects (if the file is part of the analysed tree), or is answered;    *)
 (* an answered rename at a symbol mutates the cache in the coded reading.                                            *)
@@ -91,12 +95,12 @@ GenInit == disk["inc"] = "ia" /\ disk["main"] \in {"ma", NoText}     \* exported
 (* ---------------------------------------------------------------- properties *)
 EffNow == Eff(disk, s.cli)
 SeenA(fm) == [f \in TreeOf(fm) |-> fm[f]]
-InvFreshAnalysis == s.alive => FreshAnalysis(s, disk, Ok(s.cli), "main", SeenA)
+InvFreshAnalysis == s.alive => FreshAnalysis(s, disk, Ok(s.cli), MainE(s.cli), SeenA)
 InvFreshShown == s.alive => FreshShown(s, disk, TreeNow(s.cli), LAMBDA g : DiagOf(EffNow, g))
 InvTotal == Total(s)
 (* ... weakened only by the witnesses of the recorded deviations *)
 DroppedOnly == \A g \in Files : s.shown[g] # (IF g \in TreeNow(s.cli) THEN DiagOf(EffNow, g) ELSE "none") => g \notin TreeNow(s.cli)
-InvFreshAnalysisW == s.alive => (FreshAnalysis(s, disk, Ok(s.cli), "main", SeenA) \/ CloseWitness(s) \/ TaintWitness(s) \/ LagWitness(s))
+InvFreshAnalysisW == s.alive => (FreshAnalysis(s, disk, Ok(s.cli), MainE(s.cli), SeenA) \/ CloseWitness(s) \/ TaintWitness(s) \/ LagWitness(s))
 InvFreshShownW == s.alive => (FreshShown(s, disk, TreeNow(s.cli), LAMBDA g : DiagOf(EffNow, g)) \/ CloseWitness(s) \/ LagWitness(s) \/ DroppedOnly)
 InvTotalW == s.alive \/ s.death \in Deviations
 TypeOK == /\ s.alive \in BOOLEAN /\ s.taint \in BOOLEAN /\ s.stale \subseteq Files
